@@ -9,8 +9,9 @@ SEARCH_N = {'quick': 3000, 'thorough': 20000}
 SHARD = 200
 CASE_TIMEOUT = 20.0
 RULE = ('files with 1..5 dimensions of length 1..4 (one may be unlimited), 1..4 variables of rank 0..5 over arbitrary dimension '
-        'subsets/orders (masked and unmasked, 1-D coordinate variables, attributes), cells = distinct integers so that any permutation '
-        'shows; selectors over any subset of dimensions in random keyword order: +/- ints, slices with None/+/-/oversized '
+        'subsets/orders (int32/float32/float64, masked and unmasked, 1-D coordinate variables, attributes; masked variables carry their own '
+        'fill_value / missing_value / _FillValue among 0, -999, -1, the numpy default fill, and some UNMASKED cells hold exactly that value), cells = '
+        'distinct integers so that any permutation shows; selectors over any subset of dimensions in random keyword order: +/- ints, slices with None/+/-/oversized '
         'start/stop/step incl. empty and reversed, index lists with repeats and negative entries, 2..3 equal-length lists (zipped); '
         'targeted streams for int+list separated by a slice axis and zipped+int (the repaired defects); malformed stream (unknown dimension, out-of-range '
         'int/list element, step 0, unequal list lengths), empty zipped lists; string form slice_dim (as dim=slice(start,stop,stride)) and the '
@@ -80,6 +81,14 @@ def _gen_file(rng, ndims=None, maxcells=96):
         if v['masked']:
             v['mask'] = [1 if rng.random() < 0.25 else 0 for _ in range(size)]
         v['attrs'] = dict(units='u_' + v['name'], long_name=v['name'] + ' var') if rng.random() < 0.8 else {}
+        if rng.random() < 0.45:
+            v['dtype'] = rng.choice('ifd')
+        if v['masked'] and rng.random() < 0.6:
+            # unmasked cells that hold the variable's own fill value (incl. 0, -1 and the numpy default fill of the dtype)
+            dt = v.get('dtype', 'i')
+            v['fill'] = rng.choice([0, -999, -1, 999999] if dt == 'i' else [0, -999, -1, 1e20])
+            v['fillkey'] = rng.choice(['fill_value', 'fill_value', 'missing_value', '_FillValue'])
+            v['fillcells'] = sorted(rng.sample(range(size), min(size, rng.randint(1, 3))))
     return dims, vs
 
 
@@ -304,7 +313,8 @@ def _gen_strform(rng):
     dims, vs = _gen_file(rng)
     for v in vs:
         v['masked'] = False
-        v.pop('mask', None)
+        for key in ('mask', 'fill', 'fillkey', 'fillcells'):
+            v.pop(key, None)
     dn, n, _ = rng.choice(dims)
     form = rng.choice([1, 1, 2, 2, 3, 3])
     a = rng.randint(-n, n - 1)
@@ -333,6 +343,57 @@ def _cellvals(vi, size):
     return [vi * 1000 + k for k in range(size)]
 
 
+NPDT = {'i': 'int32', 'f': 'float32', 'd': 'float64'}
+
+
+def _fillval(v):
+    """the variable's own fill value as the exact integer the stored number denotes (None if the case names none)"""
+    if v.get('fill') is None:
+        return None
+    import numpy as np
+    return int(np.array(v['fill'], dtype=NPDT[v.get('dtype', 'i')]))
+
+
+def _apply_fill(v, vals, mask=None):
+    """some UNMASKED cells hold the variable's own fill value (a valid value that happens to equal it)"""
+    fv = _fillval(v)
+    if fv is None:
+        return list(vals)
+    vals = list(vals)
+    for k in v.get('fillcells', []):
+        if k < len(vals) and not (mask and mask[k]):
+            vals[k] = fv
+    return vals
+
+
+def _create(f, v, shape, vals, mask):
+    """create variable v in file f: dtype, masked with its own fill_value / missing_value / _FillValue, cells, mask"""
+    import numpy as np
+    dt = v.get('dtype', 'i')
+    vals = np.array(vals, dtype=NPDT[dt]).reshape(shape)
+    if v.get('masked'):
+        fill = v.get('fill', -999)
+        var = f.createVariable(v['name'], dt, tuple(v['dims']), **{v.get('fillkey', 'fill_value'): fill})
+        var[...] = vals      # stored values stay under the mask (distinct, so a lost mask shows which cell it was)
+        m = np.array(mask, dtype=bool).reshape(shape)
+        if m.any():
+            var[m] = np.ma.masked
+    else:
+        var = f.createVariable(v['name'], dt, tuple(v['dims']))
+        var[...] = vals
+    for k, a in v.get('attrs', {}).items():
+        setattr(var, k, a)
+    return var
+
+
+def _exp_attrs(v):
+    at = dict(v.get('attrs', {}))
+    # '_FillValue' starts with an underscore: PseudoNetCDF does not list it among a variable's ncattrs
+    if v.get('masked') and v.get('fillkey', 'fill_value') == 'missing_value':
+        at[v['fillkey']] = v.get('fill', -999)
+    return sorted((k, str(a)) for k, a in at.items())
+
+
 def _build(case):
     import numpy as np
     from PseudoNetCDF import PseudoNetCDFFile
@@ -345,18 +406,8 @@ def _build(case):
     for vi, v in enumerate(case['vars']):
         shape = tuple(lend[n] for n in v['dims'])
         size = int(np.prod(shape)) if shape else 1
-        vals = np.array(_cellvals(vi, size), dtype='i').reshape(shape)
-        if v.get('masked'):
-            var = f.createVariable(v['name'], 'i', tuple(v['dims']), fill_value=-999)
-            var[...] = vals      # stored values stay under the mask (distinct, so a lost mask shows which cell it was)
-            m = np.array(v['mask'], dtype=bool).reshape(shape)
-            if m.any():
-                var[m] = np.ma.masked
-        else:
-            var = f.createVariable(v['name'], 'i', tuple(v['dims']))
-            var[...] = vals
-        for k, a in v.get('attrs', {}).items():
-            setattr(var, k, a)
+        mask = v['mask'] if v.get('masked') else None
+        _create(f, v, shape, _apply_fill(v, _cellvals(vi, size), mask), mask)
     f.title = 'case file'
     f.NVAL = 7
     return f
@@ -454,7 +505,7 @@ def _ccells(cells):
 def _ccells_in(case, vi, v):
     # input cells carry the stored value under the mask too (the point loop exposes it)
     cells = _in_cells(case, vi, v)
-    vals = list(v['cells']) if 'cells' in v else _cellvals(vi, len(cells))
+    vals = list(v['cells']) if 'cells' in v else _apply_fill(v, _cellvals(vi, len(cells)), v.get('mask') if v.get('masked') else None)
     return '[' + '; '.join('(%s, %s)' % (C.zc(x), 'true' if c is None else 'false') for x, c in zip(vals, cells)) + ']'
 
 
@@ -465,7 +516,7 @@ def _in_cells(case, vi, v):
     size = 1
     for n in v['dims']:
         size *= lend[n]
-    vals = _cellvals(vi, size)
+    vals = _apply_fill(v, _cellvals(vi, size), v.get('mask') if v.get('masked') else None)
     if v.get('masked'):
         return [None if m else x for x, m in zip(vals, v['mask'])]
     return vals
@@ -669,9 +720,9 @@ def py_check(case, obs):
         iv = inv[ov['name']]
         if bool(iv.get('masked')) != ov['masked']:
             why.append('%s masked-ness changed' % ov['name'])
-        if sorted((k, str(a)) for k, a in iv.get('attrs', {}).items()) != ov['attrs']:
+        if _exp_attrs(iv) != ov['attrs']:
             why.append('%s attributes %s' % (ov['name'], ov['attrs']))
-        if ov['dtype'] != 'int32':
+        if ov['dtype'] != NPDT[iv.get('dtype', 'i')]:
             why.append('%s dtype %s' % (ov['name'], ov['dtype']))
     if obs['gattrs'] != [('NVAL', '7'), ('title', 'case file')] and obs['gattrs'] != [['NVAL', '7'], ['title', 'case file']]:
         why.append('global attributes %s' % obs['gattrs'])
